@@ -1642,32 +1642,43 @@ func ruleKWCASE(c *Ctx, r *Report) {
 // PHRASE-LOOP (C08)
 func rulePHRASELOOP(c *Ctx, r *Report) {
 	const rule = "PHRASE-LOOP"
-	r.doc(rule, "in the state that emits TQuoted: the loop's only exits are rune == opening quote → emit and eof → error; every cycle performs exactly one advance and no backup (no in-phrase processing can drop or re-read bytes)")
+	r.doc(rule, "in the state that emits TQuoted: the loop's only exits are rune == opening quote → emit and eof → error; every cycle performs exactly one advance and no backup (no in-phrase processing can drop or re-read bytes); whether the token closes is decided by the rune just read alone — no other state (a nesting depth, a flag) takes part")
+	delimLoop(c, r, rule, "lex.TQuoted", "phrase", 1)
+}
+
+// REGEXP-LOOP: the same for the /…/ state, where a cycle may take two advances (an escape and the rune it protects).
+func ruleREGEXPLOOP(c *Ctx, r *Report) {
+	const rule = "REGEXP-LOOP"
+	r.doc(rule, "in the state that emits TRegexp: the loop's only exits are rune == opening delimiter → emit and eof → error; every cycle performs one advance (two for an escape and the rune it protects) and no backup; whether the token closes is decided by the rune just read alone — no other state (a character-class depth, a flag) takes part, so an unescaped delimiter always ends the token and nothing after it is swallowed")
+	delimLoop(c, r, rule, "lex.TRegexp", "regexp", 2)
+}
+
+func delimLoop(c *Ctx, r *Report, rule, tokConst, what string, maxAdv int) {
 	lr := c.lexPreamble(r, rule)
 	if lr == nil {
 		return
 	}
 	var ph *ssa.Function
 	for _, s := range lr.States {
-		if c.emitsConst(lr, s, "lex.TQuoted") {
+		if c.emitsConst(lr, s, tokConst) {
 			ph = s
 		}
 	}
 	if ph == nil {
-		r.bad(rule, "state", "-", "no lexer state emits TQuoted")
+		r.bad(rule, "state", "-", "no lexer state emits "+tokConst)
 		return
 	}
 	cps, _ := c.cyclePathsOpt(ph, c.lexInl(lr, false))
 	for i, cp := range cps {
 		adv, bk := c.countCalls(cp.instrs, lr.Advance), c.countCalls(cp.instrs, lr.Backup)
 		key := fmt.Sprintf("%s|cycle%d", fnName(ph), i)
-		if adv == 1 && bk == 0 {
-			r.ok(rule, key, c.pos(ph.Pos()), "one advance, no backup")
+		if adv >= 1 && adv <= maxAdv && bk == 0 {
+			r.ok(rule, key, c.pos(ph.Pos()), fmt.Sprintf("%d advance(s), no backup", adv))
 		} else {
-			r.bad(rule, key, c.pos(ph.Pos()), fmt.Sprintf("a cycle of the phrase loop performs %d advance(s) and %d backup(s): characters inside quotes are skipped or re-read (e.g. a backslash swallowing the closing quote)", adv, bk))
+			r.bad(rule, key, c.pos(ph.Pos()), fmt.Sprintf("a cycle of the %s loop performs %d advance(s) and %d backup(s): characters inside the delimiters are skipped or re-read (e.g. a backslash swallowing the closing delimiter)", what, adv, bk))
 		}
 	}
-	r.floor(rule, "phrase loop cycles", len(cps), 2)
+	r.floor(rule, what+" loop cycles", len(cps), 2)
 	// exits: paths that leave the loop (reach a return) after at least two advances
 	paths, _ := c.lexPaths(lr, ph, 5000)
 	rk := fnName(lr.Advance) + "($0)"
@@ -1679,10 +1690,10 @@ func rulePHRASELOOP(c *Ctx, r *Report) {
 		for _, pc := range p.Calls {
 			sc := pc.Call.Call.StaticCallee()
 			if sc == lr.Emit || sc == lr.ToTok {
-				if len(pc.Args) >= 2 && pc.Args[1] == "lex.TQuoted" {
+				if len(pc.Args) >= 2 && pc.Args[1] == tokConst {
 					emitsQ = true
 				} else {
-					r.bad(rule, fnName(ph)+"|exit|other-token", c.instrPos(pc.Call), "the phrase state emits a token other than TQuoted")
+					r.bad(rule, fnName(ph)+"|exit|other-token", c.instrPos(pc.Call), "the "+what+" state emits a token other than "+tokConst)
 				}
 			}
 			if sc == lr.Errorf {
@@ -1699,10 +1710,29 @@ func rulePHRASELOOP(c *Ctx, r *Report) {
 					okOpen = true
 				}
 			}
-			if okOpen {
-				r.ok(rule, key+"|close", c.instrPos(p.Ret), "closes on the opening quote")
-			} else {
-				r.bad(rule, key+"|close", c.instrPos(p.Ret), "TQuoted is emitted on a path that does not compare the rune with the opening quote")
+			// … and nothing but the rune just read takes part in the decision
+			foreign := ""
+			for _, a := range p.Atoms {
+				if strings.Contains(a.Subj, rk) || strings.Contains(a.Val, rk) {
+					continue
+				}
+				aboutRune := false
+				for _, av := range a.Args {
+					if c.key(av, p.Env) == rk {
+						aboutRune = true
+					}
+				}
+				if !aboutRune {
+					foreign = a.String()
+				}
+			}
+			switch {
+			case !okOpen:
+				r.bad(rule, key+"|close", c.instrPos(p.Ret), tokConst+" is emitted on a path that does not compare the rune with the opening delimiter")
+			case foreign != "":
+				r.bad(rule, key+"|close|state", c.instrPos(p.Ret), fmt.Sprintf("whether the %s closes depends on %s, not only on the rune just read: an unescaped delimiter can be read without ending the token, so the text after it (operators, other fields) is swallowed into the leaf", what, foreign))
+			default:
+				r.ok(rule, key+"|close", c.instrPos(p.Ret), "closes on the opening delimiter, decided by the rune alone")
 			}
 		case errs:
 			eof := false
@@ -1712,12 +1742,12 @@ func rulePHRASELOOP(c *Ctx, r *Report) {
 				}
 			}
 			if eof {
-				r.ok(rule, key+"|eof", c.instrPos(p.Ret), "unterminated quote is an error")
+				r.ok(rule, key+"|eof", c.instrPos(p.Ret), "an unterminated "+what+" is an error")
 			} else {
-				r.bad(rule, key+"|error", c.instrPos(p.Ret), "the phrase state raises an error for something other than end of input: some text between quotes is rejected")
+				r.bad(rule, key+"|error", c.instrPos(p.Ret), "the "+what+" state raises an error for something other than end of input: some text between the delimiters is rejected")
 			}
 		default:
-			r.bad(rule, key+"|silent", c.instrPos(p.Ret), "the phrase state can return without emitting TQuoted or an error")
+			r.bad(rule, key+"|silent", c.instrPos(p.Ret), "the "+what+" state can return without emitting "+tokConst+" or an error")
 		}
 	}
 }
@@ -2295,4 +2325,73 @@ func ruleTOKLAYOUT(c *Ctx, r *Report) {
 		sort.Strings(names)
 		r.ok(rule, "token-fields", c.pos(tt.Obj().Pos()), fmt.Sprintf("fields besides Typ and Val (%s) are never read", strings.Join(names, ", ")))
 	}
+}
+
+// LEX-ERR-SITES (C08, C16, C06): where a lexical error may be raised at all.
+func ruleLEXERRSITES(c *Ctx, r *Report) {
+	const rule = "LEX-ERR-SITES"
+	r.doc(rule, "a lexical error is raised only by the dispatching state (a rune that cannot start a token) and by the states that emit TQuoted / TRegexp (end of input before the closing delimiter, PHRASE-LOOP / REGEXP-LOOP): no other state — the word state in particular — has a path that calls the error function, so no text made of word characters, escapes and blanks is refused by the lexer")
+	lr := c.lexPreamble(r, rule)
+	if lr == nil {
+		return
+	}
+	var disp *ssa.Function
+	for _, fs := range c.lexStores(lr) {
+		if fs.field == lr.StartF {
+			for _, s := range lr.States {
+				if s == fs.fn {
+					disp = s
+				}
+			}
+		}
+	}
+	n := 0
+	for _, s := range lr.States {
+		if s == disp || c.emitsConst(lr, s, "lex.TQuoted") || c.emitsConst(lr, s, "lex.TRegexp") {
+			continue
+		}
+		n++
+		bad := false
+		// the state itself and the helpers it calls directly or through other helpers — not the states it hands
+		// over to (their code runs for the next part of the input)
+		own := map[*ssa.Function]bool{s: true}
+		work := []*ssa.Function{s}
+		for len(work) > 0 {
+			g := work[len(work)-1]
+			work = work[:len(work)-1]
+			for _, b := range g.Blocks {
+				for _, in := range b.Instrs {
+					if call, ok := in.(ssa.CallInstruction); ok {
+						if h := call.Common().StaticCallee(); h != nil && !own[h] && fnPkgPath(h) == pkgLex && !c.isLexState(lr, h) && h != lr.Errorf && len(h.Blocks) > 0 {
+							own[h] = true
+							work = append(work, h)
+						}
+					}
+				}
+			}
+		}
+		for _, g := range sortedFuncs(own) {
+			for _, b := range g.Blocks {
+				for _, in := range b.Instrs {
+					if call, ok := in.(ssa.CallInstruction); ok && call.Common().StaticCallee() == lr.Errorf {
+						bad = true
+						r.bad(rule, fnName(s)+"|error", c.instrPos(in), fmt.Sprintf("the state %s can raise a lexical error (in %s): text that the dispatcher has accepted as the start of a token is refused later — a word, a number or blank space that used to lex no longer does", fnName(s), fnName(g)))
+					}
+				}
+			}
+		}
+		if !bad {
+			r.ok(rule, fnName(s), c.pos(s.Pos()), "no path to the error function")
+		}
+	}
+	r.floor(rule, "states that must not raise errors", n, 2)
+}
+
+func (c *Ctx) isLexState(lr *LexRoles, g *ssa.Function) bool {
+	for _, s := range lr.States {
+		if s == g {
+			return true
+		}
+	}
+	return false
 }
